@@ -927,6 +927,8 @@ func buildPools(w *worker) (big, mid, small []*poolElem) {
 		chainSpec(sNil, kindIndex(ce.ErrNotFound), stepSpec{"New", "not found", "a: b"}, stepSpec{"New", "", "m"}),
 		chainSpec(sNil, kindIndex(ce.ErrExists), stepSpec{"New", "already exists", "m"}, stepSpec{"WrapIfNotCommonError", "unexpected", "a: b"}),
 		chainSpec(sDeadline, kNil, stepSpec{"Errorf", "", "m"}),
+		// a single-line reason longer than any line-oriented reader's default token (70 400 bytes: embedded command output)
+		chainSpec(sNil, kindIndex(ce.ErrConflict), stepSpec{"New", "conflict", strings.Repeat("0123456789abcdef", 4400)}),
 	}
 	for k := 0; k < nKinds; k++ {
 		sent := chainSpec(sNil, k)
